@@ -18,7 +18,6 @@ import c04_gen
 import common
 from common import Check, main_wrapper
 
-KNOWN_PAD_KEY = "blockdep-first-job-y-uses-padding-right"
 
 
 def kv(ans):
@@ -240,6 +239,20 @@ def main():
             c.block_traversal = api.NpuBlockTraversal.DEPTH_FIRST
             c.block_config = api.NpuShape3D(height=2, width=8, depth=16)
             out.append((acc, [p, c], "fixed:1-row-producer/3x1-SAME-consumer"))
+        # producer with two depth blocks, consumer REDUCE_SUM (reads every channel, OFM depth 1)
+        q = api.NpuQuantization(scale_f32=0.0625, zero_point=0)
+        a_ = c04_gen.Buf(1, 0, 20, 7, 24, api.NpuDataType.INT8, api.NpuLayout.NHWC)
+        b_ = c04_gen.Buf(1, 0x2000, 20, 7, 24, api.NpuDataType.INT8, api.NpuLayout.NHWC)
+        c_ = c04_gen.Buf(1, 0x4000, 20, 7, 1, api.NpuDataType.INT32, api.NpuLayout.NHWC)
+        p = api.NpuElementWiseOperation(api.NpuElementWiseOp.ABS)
+        p.ifm, p.ofm = c04_gen.fm_from_buf(api, a_, q), c04_gen.fm_from_buf(api, b_, q)
+        p.block_config = api.NpuShape3D(height=16, width=8, depth=16)
+        c = api.NpuPoolingOperation(api.NpuPoolingOp.REDUCE_SUM)
+        c.ifm, c.ofm = c04_gen.fm_from_buf(api, b_, q), c04_gen.fm_from_buf(api, c_, q)
+        c.kernel = api.NpuKernel(1, 1)
+        c.padding = api.NpuPadding(top=0, left=0, bottom=0, right=0)
+        c.block_config = api.NpuShape3D(height=8, width=2, depth=8)
+        out.append((Accelerator.Ethos_U65_256, [p, c], "fixed:two-depth-block-producer/REDUCE_SUM-consumer"))
         return out
 
     lists = fixed_lists()
@@ -302,39 +315,17 @@ def main():
         r.update(extra or {})
         return r
 
-    import copy
-    import re
-
-    BJ_RE = re.compile(r"op_(\d+)_BLOCKDEP_(\d+):_job_(\d+)_may_run_with_job_(\d+)_from_the_end_of_op_(\d+):")
-
-    def pad_bug_explains(i, msg):
-        """known-finding classifier for a block-job rejection: *every* reported overlap (operation c, forward job f,
-        job k from the end of the previous kernel) must belong to an operation whose padding.right differs from
-        padding.top, and the real calc_blockdep applied to a copy of that operation whose `right` field carries
-        `top` (i.e. with the y coordinate of get_first_job_input_volume computed from the top padding) must
-        return a value <= f + k, which forbids that overlap."""
+    def known_keys(i, msg):
         acc, ops, tag = ownersC[i]
-        found = BJ_RE.findall(msg)
-        if not found:
-            return False
-        for c, _bd, f, k, p in found:
-            c, f, k, p = int(c), int(f), int(k), int(p)
-            o, prev = ops[c], ops[p]
-            if isinstance(o, api.NpuDmaOperation) or o.padding is None or o.padding.right == o.padding.top:
-                return False
-            o2 = copy.copy(o)
-            o2.padding = api.NpuPadding(top=o.padding.top, left=o.padding.left, bottom=o.padding.bottom, right=o.padding.top)
-            if not rcsu.calc_blockdep(archs[acc], prev, o2) <= f + k:
-                return False
-        return True
+        return c04_gen.classify_blockjobs(msg, c04_gen.fixed_blockdeps(archs[acc], ops))
 
     seen_kinds = set()
     for i, kind, msg in specfailC:
-        if kind == "blockjobs" and pad_bug_explains(i, msg):
-            ck.count("C_known_pad_finding")
-            if not ck.violation(f"BLOCKDEP too large, get_first_job_input_volume takes the y start from padding.right "
-                                f"({ownersC[i][0].value}, {ownersC[i][2]}): {msg[:200]}", replayC(i), key=KNOWN_PAD_KEY):
-                continue
+        keys = known_keys(i, msg) if kind == "blockjobs" else None
+        if keys:
+            for key in sorted(keys):
+                ck.count("C_known_" + key)
+                ck.violation(f"BLOCKDEP too large [{key}] ({ownersC[i][0].value}, {ownersC[i][2]}): {msg[:200]}", replayC(i), key=key)
             continue
         if (kind, msg[:40]) in seen_kinds and len(seen_kinds) > 4:
             continue
@@ -345,7 +336,7 @@ def main():
         else:
             ck.violation(f"emitted BLOCKDEP allows a read-after-write overlap between consecutive kernels ({acc.value}, {tag}): {msg[:200]}",
                          replayC(i))
-    if disagreeC and not [s for s in specfailC if not (s[1] == "blockjobs" and pad_bug_explains(s[0], s[2]))]:
+    if disagreeC and not [s for s in specfailC if not (s[1] == "blockjobs" and known_keys(s[0], s[2]))]:
         i = min(disagreeC, key=lambda j: len(reqsC[j]))
         ck.violation(f"decoded KERNEL_WAIT/DMA_WAIT/BLOCKDEP differ from the model on {len(disagreeC)} of {len(reqsC)} generated streams "
                      f"(e.g. {ownersC[i][2]}, {ownersC[i][0].value}): {outsC[i][:300]}",
@@ -358,7 +349,7 @@ def main():
     import pipe_common
 
     nD = 36 if not ck.thorough else 600
-    outsD = pipe_common.run_corpus(ck, nD, want=("stream",))
+    outsD = pipe_common.run_corpus(ck, nD, want={"stream": True, "extra": c04_gen.pipeline_extra})
     reqsD, ownersD = [], []
     for o in outsD:
         ck.count("D_status_" + str(o.get("status", "harness-exception")))
@@ -398,8 +389,17 @@ def main():
         if d.get("lazy") != "1":
             ck.violation(f"compiled network {o['idx']} ({o['profile']} {o.get('opts')}): cross-queue hazard, first={d.get('first')}", rep)
         if d.get("blockjobs", "0") != "0":
-            ck.violation(f"compiled network {o['idx']} ({o['profile']} {o.get('opts')}): BLOCKDEP allows a read-after-write overlap: "
-                         + ans.split("blockjobs=", 1)[1][:300], rep)
+            msg = ans.split("blockjobs=", 1)[1][:3000]
+            fixed = (o.get("extra") or [])[si] if si < len(o.get("extra") or []) else {}
+            keys = c04_gen.classify_blockjobs(msg, fixed)
+            rep["blockdep_with_repairs"] = fixed
+            if keys:
+                for key in sorted(keys):
+                    ck.count("D_known_" + key)
+                    ck.violation(f"compiled network {o['idx']} ({o['profile']} {o.get('opts')}): BLOCKDEP too large [{key}]: {msg[:300]}", rep, key=key)
+            else:
+                ck.violation(f"compiled network {o['idx']} ({o['profile']} {o.get('opts')}): BLOCKDEP allows a read-after-write overlap: "
+                             + msg[:300], rep)
     if ansD:
         ck.sample({"D_network": ownersD[0][0].get("desc"), "opts": ownersD[0][0].get("opts"), "answer": ansD[0][:200]})
 
